@@ -242,15 +242,23 @@ def function_yaml(name, k, d, t, g, explicit):
                 node["cxx_template"][1]["format"] = {"template_suffix": "_td"}
         else:
             decl = "void %s(%s)" % (name, ", ".join(args))
-        if g and i == 0 and not t:
+        if g == 3 and i == 0 and not t:
+            # generic over rank: the array variant needs a C entry point of its own
+            node["fortran_generic"] = [{"decl": "(const int *a0)", "function_suffix": "_gs"},
+                                       {"decl": "(const int *a0 +rank(1))", "function_suffix": "_ga"}]
+            decl = decl.replace("int a0", "const int *a0")
+        elif g and i == 0 and not t:
             node["fortran_generic"] = [{"decl": "(float a0)", "function_suffix": "_gf"},
                                        {"decl": "(double a0)", "function_suffix": "_gd"}]
             decl = decl.replace("int a0", "double a0")
         node["decl"] = decl
-        if explicit and k > 1:
+        if explicit is True and k > 1:
             node.setdefault("format", {})["function_suffix"] = "_ov%s" % "abc"[i]
-        if explicit and i == k - 1 and d:
+        if explicit is True and i == k - 1 and d:
             node["default_arg_suffix"] = ["_n%d" % j for j in range(d + 1)]
+        if explicit == "partial" and i == k - 1 and d:
+            # a suffix list that names only the shortened calls; the full call keeps its generated suffix
+            node["default_arg_suffix"] = ["_n%d" % j for j in range(d)]
         nodes.append(node)
     return nodes
 
@@ -263,7 +271,8 @@ def expected_counts(k, d, t, g):
         arities = (d + 1) if i == k - 1 else 1
         inst = 2 if (t and i == 0) else 1
         gen = 2 if (g and i == 0 and not t) else 1
-        c += arities * inst
+        cgen = 2 if (g == 3 and i == 0 and not t) else 1
+        c += arities * inst * cgen
         f += arities * inst * gen
     return c, f
 
@@ -423,6 +432,15 @@ def ident_re(maxlen):
     return z3.Union(lower, z3.Concat(lower, z3.Star(alnum), lower))
 
 
+# not identifiers a C++ function, class or namespace can have
+CXX_WORDS = ["int", "long", "double", "float", "char", "short", "void", "bool", "signed", "unsigned", "const", "class",
+             "struct", "enum", "union", "if", "do", "for", "new", "try", "and", "or", "not", "xor", "asm", "auto", "case",
+             "else", "goto", "this", "true", "false", "using", "while", "break", "catch", "throw", "const", "static",
+             "extern", "inline", "return", "sizeof", "switch", "typedef", "delete", "friend", "public", "private",
+             "default", "virtual", "mutable", "typeid", "typename", "template", "operator", "namespace", "volatile",
+             "register", "explicit", "export", "continue", "protected", "nullptr", "noexcept", "decltype", "alignas",
+             "alignof", "bitand", "bitor", "compl", "wchar_t", "size_t"]
+F_C_STEM = "c"       # options.F_C_prefix is "c_": known finding 'fortran-c-prefix-name'
 RESERVED_METHOD_NAMES = ["eq", "ne", "assign", "associated", "final"]   # helpers Shroud generates for every class
 
 
@@ -439,6 +457,11 @@ def injective(templates, maxlen=8, timeout_ms=20000, reserved_for=()):
         base.append(z3.Length(v) >= 1)
     for a, b in itertools.combinations(keys, 2):
         base.append(vars_[a] != vars_[b])
+    for k, v in vars_.items():
+        for w in CXX_WORDS:
+            if len(w) <= maxlen:
+                base.append(v != z3.StringVal(w))
+        base.append(v != z3.StringVal(F_C_STEM))       # known finding, replayed concretely on every run
     for k in reserved_for:          # known finding: a method named like a generated class helper
         if k in vars_:
             for w in RESERVED_METHOD_NAMES:
@@ -478,10 +501,14 @@ def structures(tier):
     for k in (1, 2, 3):
         for d in (0, 1, 2):
             for t in (0, 2):
-                for g in (0, 2):
+                for g in (0, 2, 3):
                     if t and g:
                         continue
-                    for ex in (False, True):
+                    if g == 3 and k == 1 and d:
+                        continue        # rank generics combined with default arguments on one function: not claimed
+                    for ex in (False, True, "partial"):
+                        if ex == "partial" and not d:
+                            continue
                         single.append((k, d, t, g, ex))
     out = []
     for scope in ("lib", "ns", "cls"):
@@ -491,7 +518,8 @@ def structures(tier):
             if s[2] and s[1] and s[0] == 1:
                 continue        # known finding: function template with trailing default arguments
             out.append((scope, [s]))
-    pair_specs = [(1, 0, 0, 0, False), (2, 0, 0, 0, False), (1, 2, 0, 0, False), (2, 1, 0, 0, True), (1, 0, 2, 0, False), (1, 1, 0, 2, False)]
+    pair_specs = [(1, 0, 0, 0, False), (2, 0, 0, 0, False), (1, 2, 0, 0, False), (2, 1, 0, 0, True), (1, 0, 2, 0, False), (1, 1, 0, 2, False),
+                  (1, 0, 0, 3, False), (1, 2, 0, 0, "partial")]
     if tier == "thorough":
         pair_specs += [(3, 2, 0, 0, False), (2, 2, 2, 0, True), (3, 0, 0, 2, True)]
     for scope in ("lib", "ns", "cls"):
@@ -597,6 +625,10 @@ def main():
     for k in known:
         if k["key"] == "template-with-defaults":
             v0, _ = check_structure("lib", [(1, 1, 2, 0, False)])
+            if v0:
+                rep.known_finding("%s (%s)" % (k["what_fails"], v0[:120]))
+        elif k["key"] == "fortran-c-prefix-name":
+            v0 = confirm_struct({"scope": "lib", "funcs": [[1, 0, 0, 3, False], [1, 0, 0, 3, False]], "cex_atoms": {"f0": "c", "f1": "ga"}})
             if v0:
                 rep.known_finding("%s (%s)" % (k["what_fails"], v0[:120]))
         elif k["key"] == "reserved-method-name":
